@@ -7,7 +7,7 @@ PID = "C03"
 LEVEL = "exploration"
 RULE = ("models: generation-by-execution DAGs (vf/modelgen.py, ~70 ops + optimizer-targeted motifs, If/Loop/functions/"
         "sequences/initializer-inputs; every model checker-valid and executed before use) and node/simple/converted "
-        "models shipped in the installed onnx package lifted (as-is / inputs->initializers / wrapped in If) with recorded "
+        "models shipped in the installed onnx package lifted (as-is / inputs->initializers / wrapped in If / body moved into a model-local function, with and without inputs->initializers) with recorded "
         "expectations as tie-breaker; per model: default options + random option tuples over "
         "{optimize, optimize_ir, fold_constants, rewrite, remove_unused_nodes} x {proto, ir} x num_iterations x "
         "onnx_shape_inference x inline x stop_if_no_change x size limits; >=3 inputs (edge/mixed/small). Oracle: ORT "
